@@ -666,3 +666,90 @@ class SetState(Contract):
             if float(d.radius) == 7.25:
                 bad.append("the pickled record itself is not modified")
         return dict(violated=sorted(set(bad)), observed=how, inputs=inputs)
+
+
+# ---------------------------------------------------------------------------------------------------
+@register
+class WidthSetter(DropletMethod):
+    """DiffuseDroplet.interface_width = value: None marks the width as unset; any value >= 0 - a width of exactly 0 (sharp interface) included - is
+    stored as given; a negative value raises ValueError; nothing else changes"""
+    key = f"{MOD}:DiffuseDroplet.interface_width@setter"
+    classes = ("DiffuseDroplet",)
+    dims = (2,)
+
+    def cases(self):
+        return [dict(cls="DiffuseDroplet", dim=2, value=v) for v in ("none", "nonnegative", "negative")]
+
+    def setup(self, run, case):
+        a = super().setup(run, case)
+        if case["value"] == "none":
+            a["value"] = None
+        else:
+            v = run.input_real("value")
+            run.assume(v >= 0 if case["value"] == "nonnegative" else v < 0)
+            a["value"] = v
+        return a
+
+    def post(self, a, ret, case):
+        if case["value"] == "negative":
+            return [("a negative width is rejected (ValueError)", False)]
+        rec = a["self"].fields["data"]
+        w = rec.get("interface_width")
+        out = []
+        if case["value"] == "none":
+            out.append(("None marks the width as unset", to_z3(w.isnan) if hasattr(w, "isnan") else False))
+        else:
+            out.append(("a width >= 0 is stored as given - also a width of exactly 0 (it is not confused with `unset`)",
+                        z3.And(z3.Not(to_z3(w.isnan)), S.R(w.val) == a["value"]) if hasattr(w, "isnan") else S.R(w) == a["value"]))
+        out.append(("radius unchanged", S.eq(S.R(rec.get("radius")), self.old.get("radius"))))
+        for j in range(case["dim"]):
+            out.append((f"position[{j}] unchanged", S.eq(S.R(rec.get("position").elems[j]), self.old.get("position").elems[j])))
+        return out
+
+    def raises(self, a, exc, case):
+        if case["value"] == "negative":
+            return [("a negative width is rejected with ValueError", exc.cls_name == "ValueError")]
+        return [(f"setting a valid width raises nothing (raised {exc.cls_name})", False)]
+
+    def bounded_inputs(self, case, tier, seed):
+        for k, out in enumerate(super().bounded_inputs(case, tier, seed)):
+            out["value"] = [0.0, 0.7, 1e-300, 3.0][k % 4]
+            yield out
+
+    def concrete_run(self, case, inputs):
+        import math
+        d = self.mk(case, inputs)
+        p0, r0 = d.position.copy(), d.radius
+        val = None if case["value"] == "none" else (fnum(inputs.get("value", 0.0)) if case["value"] == "nonnegative" else -1.0 - abs(fnum(inputs.get("value", 0.0))))
+        try:
+            d.interface_width = val
+        except ValueError:
+            return dict(violated=[] if case["value"] == "negative" else ["setting a valid width raises nothing (raised ValueError)"], inputs=inputs)
+        except Exception as e:   # noqa: BLE001
+            return dict(violated=[f"unexpected exception {type(e).__name__}"], inputs=inputs)
+        if case["value"] == "negative":
+            return dict(violated=["a negative width is rejected (ValueError)"], inputs=inputs)
+        import numpy as np
+        raw = float(d.data["interface_width"])
+        bad = []
+        if val is None and not (math.isnan(raw) and d.interface_width is None):
+            bad.append("None marks the width as unset")
+        if val is not None and not (raw == val and d.interface_width == val):
+            bad.append("a width >= 0 is stored as given - also a width of exactly 0 (it is not confused with `unset`)")
+        if not (np.array_equal(p0, d.position) and d.radius == r0):
+            bad.append("radius / position unchanged")
+        return dict(violated=bad, observed=raw, inputs=inputs)
+
+
+@register
+class WidthGetter(DropletMethod):
+    """DiffuseDroplet.interface_width: None exactly when the width is unset, else the stored value (0 included)"""
+    key = f"{MOD}:DiffuseDroplet.interface_width"
+    classes = ("DiffuseDroplet",)
+    dims = (2,)
+
+    def post(self, a, ret, case):
+        w = self.old.get("interface_width")
+        if ret is None:
+            return [("None is returned only for an unset width", to_z3(w.isnan))]
+        return [("a set width is returned as stored (0 included)", z3.And(z3.Not(to_z3(w.isnan)), S.R(ret) == S.R(w.val)))]
